@@ -65,6 +65,7 @@ where
     vptr::reset(reuse);
     arc_swap::verif::reset_list();
     let n = prog.threads.len();
+    driver::arena_reset();
     sched::begin_execution(n + 1, strat, atomics);
     // the lock-based strategy blocks in the kernel: a thread parked by the scheduler may hold the lock another one wants
     let steal = prog.strategy == "rwlock";
